@@ -294,38 +294,49 @@ def keyToGo : Key → GV
   | .str b => .str b
   | .int v => .int .i64 v
 
+/-- one pair of an anonymous hash going into a map-typed target: (key, value, state) -/
+def mapEntry (rec : Rec) (kt vt : Ty) (w : World) (st : St) (k : Key) (x : Sx) : M (GV × GV × St) :=
+  let kg := keyToGo k
+  let keyOk : Bool := match kt, kg with
+    | .str, .str _ => true
+    | .int .i64, .int _ _ => true
+    | _, _ => false
+  if !keyOk then .error .err else
+  match vt with
+  | .str =>
+    if kt != .str then .error .err else
+    match x with
+    | .str b => .ok (kg, .str b, st)
+    | .sym b => .ok (kg, .str b, st)
+    | _ => .error .err
+  | .f64 =>
+    match x with
+    | .flt b => .ok (kg, .flt b, st)
+    | .int v =>
+      -- exactness is checked in the map arms too (fix C10-03)
+      match intToF64? v with
+      | some b => .ok (kg, .flt b, st)
+      | none => .error .err
+    | _ => .error .err
+  | .iface _ =>
+    if kt != .str then .error .err else
+    match rec st x vt (zero w 1 vt) with
+    | .ok (v, st1) => .ok (kg, v, st1)
+    | .error e => .error e
+  | .eface =>
+    if kt != .str then .error .err else
+    match rec st x vt (zero w 1 vt) with
+    | .ok (v, st1) => .ok (kg, v, st1)
+    | .error e => .error e
+  | _ => .error .err
+
 /-- an anonymous hash into a map-typed target -/
 def fillMap (rec : Rec) (kt vt : Ty) (w : World) : St → List (GV × GV) → List (Key × Sx) → M (List (GV × GV) × St)
   | st, es, [] => .ok (es, st)
   | st, es, (k, x) :: rest =>
-    let kg := keyToGo k
-    let keyOk : Bool := match kt, kg with
-      | .str, .str _ => true
-      | .int .i64, .int _ _ => true
-      | _, _ => false
-    if !keyOk then .error .err else
-    match kt, vt with
-    | .str, .str =>
-      match x with
-      | .str b => fillMap rec kt vt w st (mapSet es kg (.str b) sameKey) rest
-      | .sym b => fillMap rec kt vt w st (mapSet es kg (.str b) sameKey) rest
-      | _ => .error .err
-    | _, .f64 =>
-      match x with
-      | .flt b => fillMap rec kt vt w st (mapSet es kg (.flt b) sameKey) rest
-      | .int v =>
-        -- exactness is checked in the map arms too (fix C10-03)
-        match intToF64? v with
-        | some b => fillMap rec kt vt w st (mapSet es kg (.flt b) sameKey) rest
-        | none => .error .err
-      | _ => .error .err
-    | .str, .iface _ => do
-      let (v, st1) ← rec st x vt (zero w 1 vt)
-      fillMap rec kt vt w st1 (mapSet es kg v sameKey) rest
-    | .str, .eface => do
-      let (v, st1) ← rec st x vt (zero w 1 vt)
-      fillMap rec kt vt w st1 (mapSet es kg v sameKey) rest
-    | _, _ => .error .err
+    match mapEntry rec kt vt w st k x with
+    | .ok (kg, v, st1) => fillMap rec kt vt w st1 (mapSet es kg v sameKey) rest
+    | .error e => .error e
 
 /-- `reflect.Value.Set` of a remembered value into a target of type `T` (cache hit; an interface
 at the remembered location was unwrapped before, fix C10-02). -/
